@@ -464,7 +464,7 @@ Proof.
   intros Ea Hg. unfold process_sys. rewrite Ea.
   destruct (match a_st a, e_msg e with Terminated, SWatch => false | Terminated, _ => true | _, _ => false end);
     [intros H; inversion H; subst; auto|].
-  destruct (e_msg e) as [| |g|who| |r| | | |] eqn:Em.
+  destruct (e_msg e) as [| |g|who| |r| | | | |] eqn:Em.
   - (* SLaunch *) intros H Hi HW. revert H Hi. apply bind_WI.
     + intros s1 o1 p1 E Hi1. eapply WI_handle; [exact E|exact Hi1|exact HW].
     + intros s1 o1 s2 o2 p2 _ W1 E _. inversion E; subst. apply WI_upd_actor; [wp|exact W1].
@@ -511,6 +511,8 @@ Proof.
     intros b. split; [reflexivity|split; [reflexivity|split; [cbn [a_watchers w_watchers]; apply incl_remove_ref|split; [intros e0 H0; left; exact H0|intros e1 H1; exact H1]]]].
   - intros H; inversion H; subst; auto.
   - intros H; inversion H; subst; auto.
+  - (* SResumeReq *) destruct (a_st a); intros H _ HW; inversion H; subst; try exact HW.
+    apply WI_deliver_plain; [discriminate|intros w; discriminate|exact HW].
 Qed.
 
 Lemma WI_process_user s u e s' o p : process_user roles s u e = (s', o, p) -> incl o tr -> WI s -> WI s'.
@@ -792,7 +794,7 @@ Proof.
   destruct (match a_st a, e_msg e with Terminated, SWatch => false | Terminated, _ => true | _, _ => false end);
     [intros H Hin; inversion H; subst; destruct Hin|].
   assert (NT : forall o0, nt o0 -> In (OH x i (TTO w) sn sd) o0 -> False) by (intros o0 Hn Hin; eapply nt_in; eassumption).
-  destruct (e_msg e) as [| |g|who| |r| | | |] eqn:Em.
+  destruct (e_msg e) as [| |g|who| |r| | | | |] eqn:Em.
   - intros H Hin. exfalso. eapply NT; [|exact Hin]. revert H. apply bind_nt.
     + intros s1 o1 p1 E. eapply nt_handle; [|exact E]. intros w0; discriminate.
     + intros s1 s2 o2 p2 E. inversion E; subst. reflexivity.
@@ -838,6 +840,7 @@ Proof.
   - intros H Hin; inversion H; subst; destruct Hin.
   - intros H Hin; inversion H; subst; destruct Hin.
   - intros H Hin; inversion H; subst; destruct Hin.
+  - (* SResumeReq *) destruct (a_st a); intros H Hin; inversion H; subst; destruct Hin.
 Qed.
 
 Lemma nt_process_user s u e s' o p : process_user roles s u e = (s', o, p) -> nt o.
